@@ -97,14 +97,22 @@ class Run:
       ("random", rng)  0..3 single pumps after every line and chunk, drain at the end
     """
 
-    def __init__(self, flavour, version, schedule="end"):
+    def __init__(self, flavour, version, schedule="end", tcp_gateway=False):
         import mysensors
         import mysensors.transport as T
 
         self.flavour = flavour
         self.schedule = schedule
         self.tr = make_transport()
-        if flavour == "sync":
+        if flavour == "sync" and tcp_gateway:
+            import mysensors.gateway_tcp as G
+
+            class _TCP(mysensors.BaseSyncGateway, G.BaseTCPGateway):
+                """TCPGateway's bases over the recording transport (TCPGateway itself builds a socket transport)"""
+
+            self.gw = _TCP(self.tr, "127.0.0.1", protocol_version=version)
+            self.proto = T.BaseMySensorsProtocol(self.gw, lambda: None)
+        elif flavour == "sync":
             self.gw = mysensors.BaseSyncGateway(self.tr, protocol_version=version)
             self.proto = T.BaseMySensorsProtocol(self.gw, lambda: None)
         else:
@@ -382,6 +390,7 @@ class FakeSocket:
         self.sizes = list(sizes or [])
         self.recv_args = []
         self.returned = []
+        self.sent = []
         self.owner = None
 
     def setblocking(self, flag):
@@ -400,7 +409,7 @@ class FakeSocket:
         return data
 
     def sendall(self, data):
-        pass
+        self.sent.append(bytes(data))
 
     def close(self):
         pass
@@ -436,5 +445,63 @@ def tcp_run(version, setup, stream, sizes=None, pump=True):
     # connection_lost cleared proto.transport; the buffer survives
     out = r.result()
     out["recv_args"] = sorted(set(sock.recv_args))
+    out["chunks"] = [bytes(c) for c in sock.returned]
+    return out
+
+
+def tcp_probe_run(version, setup, stream, sizes=None):
+    """As tcp_run, but the gateway is a TCP gateway and the reader loop's hook is its REAL check_connection under a
+    clock that makes the periodic I_VERSION probe due on EVERY loop turn (11 s pass between two chunks; the gateway
+    answers every probe, so the no-response disconnect never fires).  The probes are extra commands of the
+    controller, counted and returned; everything else must be what any other segmentation gives."""
+    import mysensors.gateway_tcp as G
+
+    r = Run("sync", version, "end", tcp_gateway=True)
+    r.setup(setup)
+    sock = FakeSocket(stream, sizes)
+    now = [1000.0]
+    probes = [0]
+    r.gw.tcp_check_timer = r.gw.tcp_disconnect_timer = now[0]
+    # wired as the real gateway is: transport.protocol IS the line protocol, whose transport is the reader thread
+    # (connection_made); what the gateway sends is what reaches the socket
+    low = r.tr.protocol.transport
+    r.tr.protocol = r.proto
+
+    class _Time:
+        @staticmethod
+        def time():
+            return now[0]
+
+        @staticmethod
+        def sleep(_s):
+            pass
+
+    def check_conn():
+        now[0] += 11.0
+        r.gw.tcp_disconnect_timer = now[0]          # the last probe was answered
+        q0 = len(r.gw.tasks.queue)
+        r.gw.check_connection()
+        for _ in range(len(r.gw.tasks.queue) - q0):
+            r.tags.append(("?",))
+            probes[0] += 1
+        r.drain()
+
+    t = G.TCPTransport(sock, lambda: r.proto, check_conn)
+    t.log = sock.sent                 # Run.pump looks at tr.log to see whether something was written
+    sock.owner = t
+    with mock.patch("mysensors.handler.time", _FakeTimeModule), \
+            mock.patch.object(G.select, "select", lambda a, b, c, timeout=None: (a, b, [])), \
+            mock.patch.object(G, "time", _Time):
+        try:
+            if stream:
+                t.run()
+            r.drain()
+        except Exception as exc:
+            r.exc = f"{type(exc).__name__}: {exc}"
+    r.proto.transport = low           # connection_lost cleared it; result() reads the (empty) recorder
+    out = r.result()
+    out["log"] = [b.decode("utf-8", "surrogatepass") for b in sock.sent]
+    out["probes"] = probes[0]
+    out["probe_lines"] = [x for tag, x in r.emitted if tuple(tag) == ("?",)]   # what the probe jobs wrote
     out["chunks"] = [bytes(c) for c in sock.returned]
     return out
